@@ -22,8 +22,9 @@ PROP = dict(
         "modelled, not verified: i64 overflow of weight sums (contract), f64 weights (run with integer values only)",
     ],
     assumptions=[
-        "coordinates are finite f64 whose binary32 image is finite (beyond the binary32 range the code at HEAD keeps every point of the axis "
-        "on one side: no balance claim there, only `returns a bisection tree, no hang/panic`); weights are non-negative integers whose sum is below 2^53",
+        "coordinates are finite f64 (canonical binary64 values); a coordinate beyond the binary32 range counts as +-f32::MAX (clamped cast of the "
+        "current source, flag rcb_clamp_cast); the balance clause is judged on the clamped images for every input of the contract; with the plain "
+        "cast the statement is false (C04_refuted_beyond_f32_*, C04_refuted_plain_cast_outputs); weights are non-negative integers whose sum is below 2^53",
         "the former premise box_ok32 (the root box, f64 min/max then `as f32`, has finite canonical bounds enclosing the binary32 coordinates) "
         "is proved from the contract (box_ok32_holds, Proofs/RcbBox.v) and still evaluated on every in-contract case as a cross-check",
     ],
